@@ -147,8 +147,15 @@ def regenerate(repo=None):
     others = [a for a in T.assigns(fn, "value") if a is not rounding(fn)]
     # the only other assignment the model knows: `value = value.item()` (numpy scalars described as Python values)
     unwraps = [a for a in others if isinstance(a.value, ast.Call) and T._dotted(a.value.func) == "value.item" and not a.value.args]
-    if len(others) != len(unwraps) or len(unwraps) > 1:
+    resorts = [a for a in others if isinstance(a.value, ast.Call) and T._dotted(a.value.func) == "sorted"
+               and len(a.value.args) == 1 and T._dotted(a.value.args[0]) == "value"]
+    if len(others) != len(unwraps) + len(resorts) or len(unwraps) > 1 or len(resorts) > 1:
         raise T.TranslationError("unexpected assignment to `value` in _add_value_to_hash_list")
+    # sets walked in sorted order: `sorted(value, key=str)` somewhere in the walk
+    sorts = [n for n in ast.walk(fn) if isinstance(n, ast.Call) and T._dotted(n.func) == "sorted"
+             and any(k.arg == "key" and T._dotted(k.value) == "str" for k in n.keywords)]
+    if len(sorts) > 1:
+        raise T.TranslationError("more than one sorted(..., key=str) in _add_value_to_hash_list")
     info = T.translate_spec(repo, spec, cache)
     # the assignment must sit in a try whose only handler is `except OverflowError: pass`
     tries = [n for n in ast.walk(fn) if isinstance(n, ast.Try) and any(a is rounding(fn) for a in n.body)]
@@ -206,7 +213,8 @@ def regenerate(repo=None):
         "key_filter": {"source": "startswith(%r) or in %r" % (prefix, tuple(names)), "line": kf_line},
         "join_sep": {"source": repr(sep), "line": sep_line},
         "numpy_scalars_unwrapped": bool(unwraps),
-        "facts": {"source": "numpy scalars unwrapped=%r " % bool(unwraps) + "CompoundPrior.__identifier_fields__=%r ModifiedPrior.__identifier_fields__=%r from_dict restores "
+        "sets_sorted": bool(sorts),
+        "facts": {"source": "numpy scalars unwrapped=%r sets sorted=%r " % (bool(unwraps), bool(sorts)) + "CompoundPrior.__identifier_fields__=%r ModifiedPrior.__identifier_fields__=%r from_dict restores "
                             "item_number=%r LogGaussianPrior.dict=%r Drawer search.json readable=%r" % (compound, modified, restores, has_dict, drawer_ok),
                   "line": 0},
     }
@@ -233,7 +241,7 @@ PLAIN_CTOR = {"Plain": ["p", "q"], "PlainEx": ["p", "q"], "KW": [], "Renamed": [
 PLAIN_EXCL = {"Plain": None, "PlainEx": ["q"], "KW": None, "Renamed": None}
 PLAIN_ARGS = {"Plain": ["p", "q"], "PlainEx": ["p", "q"], "KW": ["p"], "Renamed": ["p"]}   # keywords the harness passes
 DROPPING = ("KW", "Renamed")     # classes whose constructor arguments the walk cannot see
-FACTS = {"numpy_scalars_unwrapped": False}
+FACTS = {"numpy_scalars_unwrapped": False, "sets_sorted": False}
 BINOPS = {"+": "SumPrior", "*": "MultiplePrior", "/": "DivisionPrior", "//": "FloorDivPrior",
           "%": "ModPrior", "**": "PowerPrior"}
 UNOPS = {"neg": "NegativePrior", "abs": "AbsolutePrior"}
@@ -1563,6 +1571,7 @@ def run(ctx):
                 "paths.save_all or by a real fit and read by SearchOutput, other variable names, non-identifying search settings, "
                 "sub-resolution float change) or a DIFFERENT one (one prior parameter/family, fixed value, class, sharing pattern, "
                 "attribute, key, operator, identifying search setting, search class, tag), (c) generic Python values for the walk, "
+                "incl. values the walk has no branch for (numpy scalars, complex, 0-d arrays), sets, a dict subclass, "
                 "(d) single floats for the rounding. A fit/pair is non-trivial when the model has >= 2 priors and a shared prior, "
                 "nesting >= 2, a tuple, arithmetic or a constant (search/tag pairs always); distinct = distinct abstract input")
     ctx.trusted = [
@@ -1582,6 +1591,7 @@ def run(ctx):
     try:
         infos = regenerate()
         FACTS["numpy_scalars_unwrapped"] = infos.pop("numpy_scalars_unwrapped")
+        FACTS["sets_sorted"] = infos.pop("sets_sorted")
         ctx.translated = infos
         ctx.notes["code_facts"] = infos["facts"]["source"]
         ctx.obligation("translator:Gen.v", "translator", True, "%d items" % len(infos))
@@ -1684,23 +1694,28 @@ def run(ctx):
 
 MANIFEST = {
     "text": "Coq 8.16 model of the identifier walk (Identifier._add_value_to_hash_list over abstract object graphs; RESOLUTION, the "
-            "rounding formula, the skipped-key rule, the join separator and four facts about neighbouring code are regenerated from "
-            "the source on every run, fail closed), of the object shape of searches / models / priors / arithmetic priors and of the "
-            "JSON reload. Theorems for all objects and contexts: the description and the exceptions of the walk depend only on "
-            "what `strip` keeps (nothing below ids, labels, private keys, unselected attributes; hence creation order, copies, "
-            "labels); reload invariance on the explicitly delimited reloadable fragment; a change of one token / of a separator-free "
-            "head token / from nothing to something, in ANY context of visible selected keys, changes the joined description (with "
-            "leaves for fixed values, ints, bools, strings, prior family and each prior parameter, class, search setting, search "
-            "class, tag); exact-arithmetic separation of values more than RESOLUTION apart. Refutation witnesses, replayed on the "
-            "code, for: sharing pattern invisible, caller variable names visible, list-built collections / fixed sub-models / "
-            "arithmetic priors changing or failing on reload, regrouping and '.'-join collisions. vm_compute correspondence token "
-            "by token and shape by shape with the running code, plus a direct oracle on equal constructions (ids, order, labels, "
-            "deepcopy, JSON, files written by save_all and by real fits read through SearchOutput, second process, non-identifying "
-            "settings, sub-resolution floats) and on every single-field perturbation class, for all eleven search classes",
-    "note": "Trusted: Coq kernel + vm_compute, the translator part of c07.py, the live-object abstraction of c07_impl.py, str(float) and "
-            "md5 as oracle / injectivity hypotheses. Binary64 rounding is compared bit-for-bit by correspondence only (the separation "
-            "theorem is over exact rationals). The sensitivity theorems are per perturbation in context, not global injectivity "
-            "(which is refuted). identifier_version config, md5 collisions and Array models are not covered. Seven genuine defects are "
-            "recorded as known findings (two of them with proposed repairs), two more were repaired in /repo during construction.",
+            "rounding formula, the skipped-key rule, the join separator and facts about neighbouring code -- declared identifier "
+            "fields of arithmetic priors, item_number restoration, LogGaussianPrior.dict, Drawer, numpy unwrapping, set sorting -- "
+            "are regenerated from the source on every run, fail closed), of the object shape of searches / models / priors / "
+            "arithmetic priors and of the JSON reload. Theorems for all objects and contexts: description and exceptions of the walk "
+            "depend only on what `strip` keeps (hence ids, creation order, copies, labels, caller variable names of arithmetic "
+            "priors); every composition in the guard `reload_ok` (all but -x/abs x and components without free parameters) reloads "
+            "to the same description, by induction, although the reloaded tree differs; a change of one token / a separator-free "
+            "head token / nothing-to-something / a renamed key / an added item, in ANY context of visible selected keys, changes the "
+            "joined description (leaves for fixed values, ints, bools, strings, prior family and each prior parameter, class, search "
+            "setting, search class, tag); exact-arithmetic separation beyond RESOLUTION and a kernel-checked binary64 sweep on three "
+            "stated ranges. Refutation witnesses replayed on the code: sharing invisible, dropped numpy scalars / keyword-only "
+            "arguments, type collapse, fixed sub-models and modified priors on reload, regrouping and '.'-join collisions. "
+            "vm_compute correspondence token by token and shape by shape with the running code, plus a direct oracle on equal "
+            "constructions (ids, order, labels, deepcopy, keyword order, JSON, files written by save_all and by real fits read "
+            "through SearchOutput in the same and in another process, a search re-used for a second fit, configuration defaults "
+            "given explicitly, sub-resolution floats) and on every single-field perturbation class incl. the 1e-8..2.5e-8 band, for "
+            "all eleven search classes",
+    "note": "Trusted: Coq kernel + vm_compute, the translator part of c07.py, the live-object abstraction of c07_impl.py (it mirrors two "
+            "code facts: numpy unwrapping, set sorting), str(float) and md5 as oracle / injectivity hypotheses. The sensitivity "
+            "theorems are per perturbation in context, not global injectivity (refuted). A ModifiedPrior under a class with prior "
+            "configuration (silent default on reload) and plain objects whose constructor arguments cannot be read back are checked "
+            "by the oracle only. identifier_version config, md5 collisions, Array models are not covered. Eight genuine defects are "
+            "recorded as known findings (one with a proposed repair); four were repaired in /repo during construction.",
     "technique": "machine-checked proof in Coq (translator-regenerated constants and code facts) + vm_compute correspondence + property oracle",
 }
